@@ -85,9 +85,12 @@ func c03Cases() []c03Case {
 	lists := []struct {
 		name string
 		w    []string
-	}{{"[A]", []string{"A"}}, {"[A,B]", []string{"A", "B"}}, {"none", nil}, {"[]", []string{}}, {"[*]", []string{"*"}}}
+	}{{"[A]", []string{"A"}}, {"[A,B]", []string{"A", "B"}}, {"none", nil}, {"[]", []string{}}, {"[*]", []string{"*"}}, {"recorded-empty", []string{}}}
 	for _, l := range lists {
 		for _, ctrl := range []string{"ipfs", "simple", "orbitdb", "simple-direct"} {
+			if l.name == "recorded-empty" && ctrl != "ipfs" {
+				continue // the empty list is recorded by hand in the ipfs controller's format
+			}
 			for _, route := range []string{"local", "sync", "topic", "direct", "ancestor"} {
 				if ctrl == "simple-direct" && (route == "topic" || route == "direct" || l.w == nil || len(l.w) == 0) {
 					continue // constructor-built replicas do not replicate over pubsub; the list is explicit
@@ -106,7 +109,7 @@ func c03Cases() []c03Case {
 					}
 					for _, p := range positions {
 						out = append(out, c03Case{Writers: l.w, ListName: l.name, Controller: ctrl, Mode: m, Route: route, Position: p})
-						if ctrl == "ipfs" && l.name != "[*]" {
+						if ctrl == "ipfs" && l.name != "[*]" && l.name != "recorded-empty" {
 							out = append(out, c03Case{Writers: l.w, ListName: l.name, Controller: ctrl, Mode: m, Route: route, Position: p, Reused: true})
 						}
 					}
@@ -118,7 +121,7 @@ func c03Cases() []c03Case {
 }
 
 func runC03Case(c c03Case) (string, []explore.Violation) {
-	opts := AdvOptions{Kind: "eventlog", Writers: c.Writers, Controller: c.Controller, ReusedOptions: c.Reused}
+	opts := AdvOptions{Kind: "eventlog", Writers: c.Writers, Controller: c.Controller, ReusedOptions: c.Reused, RecordedEmpty: c.ListName == "recorded-empty"}
 	if c.Controller == "simple-direct" {
 		opts.Controller, opts.SimpleDirect = "", true
 	}
@@ -134,8 +137,21 @@ func runC03Case(c c03Case) (string, []explore.Violation) {
 		vs = append(vs, explore.Violation{Signature: sig, Detail: c.ID() + ": " + detail})
 	}
 	h1, err := w.Write(w.SA, "h1")
-	if err != nil {
+	if err != nil && c.ListName == "recorded-empty" {
+		// nobody may write to this database, its creator included: that refusal is itself the first thing to see;
+		// there is no honest entry, so forged heads are announced alone
+		h1 = nil
+		if w.SA.OpLog().Len() != 0 {
+			bad("refused-local-write-changed-state", "the creator's refused write left an entry in its log")
+		}
+		if c.Position != "alone" && c.Route != "local" {
+			return "skipped: no honest entry exists in a database nobody may write to", vs
+		}
+	} else if err != nil {
 		return "skipped: honest writer cannot write (" + firstLine(err.Error()) + ")", nil
+	} else if c.ListName == "recorded-empty" {
+		bad("local-write-by-nonwriter-succeeded", "the database records an empty write list, yet the peer that built it can write")
+		return "creator wrote to a database nobody may write to", vs
 	}
 	if c.Route == "local" {
 		var sn iface.Store
@@ -153,8 +169,10 @@ func runC03Case(c c03Case) (string, []explore.Violation) {
 		if err != nil {
 			return "skipped: non-writer cannot open", nil
 		}
-		_ = sn.Sync(bg, toLogEntries(wire([]*entry.Entry{h1})))
-		_ = sim.Quiesce()
+		if h1 != nil {
+			_ = sn.Sync(bg, toLogEntries(wire([]*entry.Entry{h1})))
+			_ = sim.Quiesce()
+		}
 		before := fmt.Sprint(hashesOf(sn.OpLog().Values().Slice()), hashesOf(sn.OpLog().Heads().Slice()))
 		cacheBefore, _ := sn.Cache().Get(bg, datastore.NewKey("_localHeads"))
 		_, werr := sn.(iface.EventLogStore).Add(bg, []byte("evil"))
@@ -219,8 +237,10 @@ func runC03Case(c c03Case) (string, []explore.Violation) {
 		return "harness: not quiescent", nil
 	}
 	// honest re-announcement so that the expected honest view is well defined
-	_ = w.Deliver("sync", w.A, []*entry.Entry{h1})
-	_ = sim.Quiesce()
+	if h1 != nil {
+		_ = w.Deliver("sync", w.A, []*entry.Entry{h1})
+		_ = sim.Quiesce()
+	}
 	merged := w.VictimHas(forged.Hash)
 	view := w.VictimView()
 	if wildcard {
@@ -232,7 +252,7 @@ func runC03Case(c c03Case) (string, []explore.Violation) {
 	if strings.Contains(","+view+",", ",forged,") {
 		bad("unauthorised-entry-visible:"+c.Mode, fmt.Sprintf("victim view %q", view))
 	}
-	if !w.VictimHas(h1.Hash) {
+	if h1 != nil && !w.VictimHas(h1.Hash) {
 		bad("honest-entry-missing", fmt.Sprintf("victim log %v", w.VictimSet()))
 	}
 	return fmt.Sprintf("merged=%v", merged), vs
